@@ -138,7 +138,8 @@ class C20(Prop):
             "empty then websocket, two values, a blank} x Accept in {absent, application/nostr+json, the same with "
             "parameters, with a leading / trailing blank, in another case, as the second value, as the first of two values, "
             "inside a comma list, application/json, */*, empty} x {with, without} NIP-11 document x {with, without} default "
-            "handler x an optional `Connection: Upgrade` x GET/POST/OPTIONS; 10% direct calls of NIP11.ServeHTTP; 20% random "
+            "handler x an optional `Connection: Upgrade` x GET/POST/OPTIONS; 10% direct calls of NIP11.ServeHTTP; 6% of the requests for a document are repeated 150 times while four goroutines "
+            "keep requesting another document from a NIP11 value of their own (the answer must stay the same); 20% random "
             "documents (every optional block absent / empty / filled, nil elements, kinds as single numbers and pairs incl. "
             "From = To, reversed and negative, ints incl. the int64 extremes, strings with HTML characters, quotes, percent signs (100% free, %20, %s%d%v, %%), "
             "non-ASCII, U+2028) through json.Marshal and json.Unmarshal; 10% kind ranges through Marshal/Unmarshal; 5% "
@@ -184,7 +185,7 @@ class C20(Prop):
 
     def nontrivial_key(self, c):
         k = c["k"]
-        inp = {x: c.get(x) for x in ("k", "upgrade", "accept", "doc", "has_default", "connection", "kind", "text", "method", "extra", "prior")}
+        inp = {x: c.get(x) for x in ("k", "upgrade", "accept", "doc", "has_default", "connection", "kind", "text", "method", "extra", "prior", "busy")}
         if k in ("route", "direct"):
             u, a = first(c.get("upgrade")), first(c.get("accept"))
             separates = (c.get("upgrade") and u == "") or (c.get("connection") and not u) or \
@@ -223,6 +224,8 @@ class C20(Prop):
                 yield dict(c, connection=False)
             if c.get("prior"):
                 yield dict(c, prior=None)
+            if c.get("busy"):
+                yield dict(c, busy=None)
             if c.get("extra"):
                 yield dict(c, extra=None)
                 for e2 in drop_one(c["extra"]):
